@@ -1,1 +1,211 @@
-//! deterministic pacing of kira's decoder threads (E1)
+//! Deterministic pacing of kira's decoder threads for the sequential engines (E1/E3).
+//!
+//! kira spawns one real OS thread per streaming sound. Through the `verif-hooks` feature
+//! that thread announces itself at the top of every iteration of its decode loop
+//! ("decoder.gate"). In pacer mode the thread parks there until the harness grants it
+//! steps, so that "how far ahead the decoder is" is decided by the harness and every run is
+//! reproducible. A decoder that is never granted steps again simply stays parked (zero CPU).
+
+use kira::verif::Event;
+use std::cell::Cell;
+use std::sync::atomic::{AtomicU8, Ordering};
+use std::sync::{Condvar, Mutex};
+use std::time::Duration;
+
+#[derive(Debug, Clone, Copy, PartialEq, Eq)]
+#[repr(u8)]
+pub enum Mode {
+	Off = 0,
+	Pacer = 1,
+	Sched = 2,
+}
+
+static MODE: AtomicU8 = AtomicU8::new(0);
+
+pub fn mode() -> Mode {
+	match MODE.load(Ordering::SeqCst) {
+		1 => Mode::Pacer,
+		2 => Mode::Sched,
+		_ => Mode::Off,
+	}
+}
+
+pub fn set_mode(m: Mode) {
+	MODE.store(m as u8, Ordering::SeqCst);
+	kira::verif::set_hook(if m == Mode::Off { None } else { Some(hook) });
+}
+
+fn hook(ev: Event) {
+	match mode() {
+		Mode::Off => {}
+		Mode::Pacer => pacer_hook(ev),
+		Mode::Sched => crate::sched::sched_hook(ev),
+	}
+}
+
+#[derive(Debug, Default, Clone)]
+pub struct Dec {
+	pub permits: u64,
+	pub at_gate: bool,
+	pub exited: bool,
+	/// gate passes so far
+	pub steps: u64,
+	/// consecutive Wait (ring full) iterations
+	pub waits: u64,
+}
+
+#[derive(Default)]
+struct PState {
+	decs: Vec<Dec>,
+	spawned: u64,
+	registered: u64,
+}
+
+static P: Mutex<PState> = Mutex::new(PState {
+	decs: Vec::new(),
+	spawned: 0,
+	registered: 0,
+});
+static CV: Condvar = Condvar::new();
+
+thread_local! {
+	static DEC_ID: Cell<Option<usize>> = const { Cell::new(None) };
+}
+
+fn lock() -> std::sync::MutexGuard<'static, PState> {
+	P.lock().unwrap_or_else(|e| e.into_inner())
+}
+
+fn pacer_hook(ev: Event) {
+	match ev {
+		Event::Sync("decoder.gate") => {
+			let mut st = lock();
+			let id = match DEC_ID.with(|d| d.get()) {
+				Some(id) => id,
+				None => {
+					st.decs.push(Dec::default());
+					st.registered += 1;
+					let id = st.decs.len() - 1;
+					DEC_ID.with(|d| d.set(Some(id)));
+					id
+				}
+			};
+			st.decs[id].at_gate = true;
+			CV.notify_all();
+			while st.decs[id].permits == 0 {
+				st = CV.wait(st).unwrap_or_else(|e| e.into_inner());
+			}
+			st.decs[id].permits -= 1;
+			st.decs[id].at_gate = false;
+			st.decs[id].steps += 1;
+		}
+		Event::Sync("yield:decoder.wait") => {
+			if let Some(id) = DEC_ID.with(|d| d.get()) {
+				lock().decs[id].waits += 1;
+			}
+		}
+		Event::Sync(_) => {}
+		Event::ThreadSpawned => {
+			// the spawner waits until the child has parked at its first gate, so that the
+			// set of decoder threads is the same in every run
+			let mut st = lock();
+			st.spawned += 1;
+			let want = st.spawned;
+			let mut spins = 0;
+			while st.registered < want {
+				let (g, _) = CV
+					.wait_timeout(st, Duration::from_millis(100))
+					.unwrap_or_else(|e| e.into_inner());
+				st = g;
+				spins += 1;
+				if spins > 100 {
+					panic!("pacer: spawned decoder thread never reached its gate");
+				}
+			}
+		}
+		Event::ThreadExit => {
+			if let Some(id) = DEC_ID.with(|d| d.get()) {
+				let mut st = lock();
+				st.decs[id].exited = true;
+				st.decs[id].at_gate = false;
+				CV.notify_all();
+			}
+		}
+	}
+}
+
+/// ids of decoders registered so far
+pub fn count() -> usize {
+	lock().decs.len()
+}
+
+pub fn info(id: usize) -> Dec {
+	lock().decs[id].clone()
+}
+
+pub fn live() -> Vec<usize> {
+	lock()
+		.decs
+		.iter()
+		.enumerate()
+		.filter(|(_, d)| !d.exited)
+		.map(|(i, _)| i)
+		.collect()
+}
+
+/// let decoder `id` perform up to `k` loop iterations; returns when it is parked again or has exited.
+/// Returns the number of iterations actually started.
+pub fn step(id: usize, k: u64) -> u64 {
+	step_or(id, k, &|| false)
+}
+
+/// like `step`, but also returns (and marks the decoder as gone) as soon as `gone()` is true —
+/// used when the harness makes a leaked decoder thread die (its `Drop` is the signal)
+pub fn step_or(id: usize, k: u64, gone: &dyn Fn() -> bool) -> u64 {
+	let mut st = lock();
+	if st.decs[id].exited {
+		return 0;
+	}
+	let before = st.decs[id].steps;
+	st.decs[id].permits += k;
+	CV.notify_all();
+	let mut idle = 0;
+	loop {
+		let d = &st.decs[id];
+		if d.exited || (d.permits == 0 && d.at_gate) {
+			break;
+		}
+		if gone() {
+			st.decs[id].exited = true;
+			break;
+		}
+		let (g, t) = CV
+			.wait_timeout(st, Duration::from_millis(2))
+			.unwrap_or_else(|e| e.into_inner());
+		st = g;
+		if t.timed_out() {
+			idle += 1;
+			if idle > 2500 {
+				// a decoder that neither returns to its gate nor exits: leave it alone
+				break;
+			}
+		} else {
+			idle = 0;
+		}
+	}
+	st.decs[id].permits = 0;
+	st.decs[id].steps - before
+}
+
+/// step every live decoder registered at or after `from`
+pub fn step_all_from(from: usize, k: u64) {
+	let n = count();
+	for id in from..n {
+		step(id, k);
+	}
+}
+
+/// wait (bounded real time) until decoder `id` has exited
+pub fn exited(id: usize) -> bool {
+	lock().decs[id].exited
+}
